@@ -119,7 +119,7 @@ def gen_plan(seed: int, tier: str) -> dict:
     if mode == "ip":
         from checks import c08
 
-        plan = c08.gen_plan(seed, tier)
+        plan = c08.gen_plan(seed, tier, enumerate_first=False)
         extra = []
         horizon = max([o["t"] for o in plan["ops"]] + [1.0])
         for _ in range(r.choice([0, 1, 1, 2, 3])):
